@@ -56,7 +56,8 @@ CLAIMED = {
              "bytes x raw-sense on/off x (no / stale) cached sense, lifted to every history of executions incl. re-used command objects by "
              "induction (returns normally only for GOOD; CHECK CONDITION raises CheckCondition with THIS execution's sense or, only when "
              "asked, attaches the raw sense; each other status raises its named error). The semantics of the small act language is tied to "
-             "the real device classes over stub bindings by a 1500-history correspondence run (all 256 statuses exhaustively). Histories of facade calls on ONE SCSI object over the real SCSIDevice / ISCSIDevice (stub bindings), the answers of the target scripted per call as a list (a hidden "
+             "the real device classes over stub bindings by a 6400-history correspondence run (all 256 statuses exhaustively; every fixed-length operation code x the five command sets a device object may carry x "
+             "the statuses that are a success of SOME command — CONDITION MET, INTERMEDIATE ...: what a status means depends neither on the command nor on the attached command set). Histories of facade calls on ONE SCSI object over the real SCSIDevice / ISCSIDevice (stub bindings), the answers of the target scripted per call as a list (a hidden "
              "re-execution meets the next one), incl. a sweep of all 16 sense keys x 10 ASC/ASCQ pairs x both sense formats, are judged on every run: a call returns normally only if the "
              "FIRST answer was GOOD; SCSI.execute is regenerated and must be the plain pass-through.",
         ref="DESIGN.md §4 C07",
@@ -99,7 +100,7 @@ CLAIMED = {
              "error, after an execute the device holds a handle on the current node also when closing the stale handle failed; with "
              "detection off the original handle is kept; every handle is released at most once and close()/__exit__ release the current "
              "one. The shape of execute()'s replug prologue and of _is_replugged/open/close/__exit__ is REGENERATED and checked; the state "
-             "machine is tied by 2000 event sequences run against the real SCSIDevice on a real file system under /dev/shm.",
+             "machine is tied by 2300 event sequences run against the real SCSIDevice on a real file system under /dev/shm, also with the device path being an alias (symlink) of the node that a replug re-points.",
         ref="DESIGN.md §4 C15",
         note="Partial: OS behaviour (inode reuse, race between stat and open) is outside the model; the file-system contract is listed in the "
              "evidence assumptions. ISCSIDevice connect/disconnect pairing is exercised by the C19 and C07 drivers, not proved here.",
@@ -109,7 +110,7 @@ CLAIMED = {
              "enumeration inside the kernel over all 32 device types x 5 current sets shows SBC for 0/4/7, SSC for 1, MMC for 5, SMC for 8 and "
              "a set with the primary commands otherwise; the type is bits 4:0 of byte 0 for every buffer (qualifier cannot leak); attach is "
              "one standard INQUIRY; for every history of attaches over several device objects the device attached last carries the set of "
-             "its own type and no other device changes. Tied by 812 attach histories (all 256 first bytes, fresh/re-used devices and facades).",
+             "its own type and no other device changes. Tied by 900 attach histories (all 256 first bytes, fresh/re-used devices and facades; the rest of the INQUIRY data all zeroes, all ones, high bytes, random).",
         ref="DESIGN.md §4 C16",
         note="Both transports share the facade code path; the histories run over a recording device object (the facade works over any device object).",
         technique="Coq: kernel enumeration over regenerated tables + history lemma + vm_compute correspondence"),
@@ -257,7 +258,8 @@ CLAIMED = {
              "names across sets; init_cdb's range table (regenerated from scsi_command.py) equals the SAM group rule for all 256 "
              "operation codes. Finite domains, exhaustive, bounds in the statements. The tables are judged a second time as a caller finds them AFTER the library was used in the process (a facade attached and re-attached to devices of all 32 "
              "peripheral device types x 5 fillings of the other INQUIRY bytes, every facade method called once). A name is looked up as an ordinary attribute of class Enum, whose members are compared as syntax trees with the modelled text on every run "
-             "(C14_lookup_is_the_table: no __getattr__ fallback), and every name some set lists, in every CDB size variant, is looked up in every set that does NOT list it: it must fail or give the T10 value of that name.",
+             "(C14_lookup_is_the_table: no __getattr__ fallback), and every name some set lists, in every CDB size variant, is looked up in every set that does NOT list it: it must fail or give the T10 value of that name. "
+             "The table every ATTACHED device object carries (all 32 types) is dumped and judged like the shared sets.",
         ref="DESIGN.md §4 C14",
         note="Trusted: Coq kernel + vm_compute; the translator (validated against runtime reflection of the Enum objects on every run); "
              "Spec/T10Opcodes.v and Spec/SAM.v (my transcription of T10's assignments); 8-line hand model of the range-table "
